@@ -375,7 +375,8 @@ def frame(ctx):
     B = symarray('b', (3,), real=True)
     TM = symarray('t', (3, 3), real=True)
     n = 0
-    for tag, kw in (('Miller line and plane', dict(ξ_uvw='XI', slip_hkl='HKL')), ('transform', dict(transform='GIVEN')), ('axes (legacy)', dict(axes='GIVEN')), ('no orientation', dict())):
+    GIVEN = symarray('g', (3, 3), real=True)      # the vectors as the caller wrote them (not unit, not checked)
+    for tag, kw in (('Miller line and plane', dict(ξ_uvw='XI', slip_hkl='HKL')), ('transform', dict(transform=GIVEN)), ('axes (legacy)', dict(axes=GIVEN)), ('no orientation', dict())):
         n += 1
         rec = []
 
@@ -406,7 +407,7 @@ def frame(ctx):
             okT = okT and len(f) == 1 and f[0][1] == 'XI' and f[0][2] == 'HKL' and equal(f[0][3], arr([0, 1, 0])) and equal(f[0][4], arr([0, 0, 1])) and f[0][5] == 'BOX'
         elif kw:
             f = [r for r in rec if r[0] == 'axes_check']
-            okT = okT and len(f) == 1 and f[0][1] == 'GIVEN'
+            okT = okT and len(f) == 1 and is_arr(f[0][1]) and equal(np.asarray(f[0][1], dtype=object), GIVEN)
         ctx.ob('FRAME', loc, '%s: the rotation is %s' % (tag, {'Miller line and plane': 'built from ξ_uvw, slip_hkl, m, n and the box', 'transform': 'the checked transform', 'axes (legacy)': 'the checked axes', 'no orientation': 'the identity'}[tag]),
                bool(okT), str(rec)[:200], node=sfn, key=tag + ' transform')
         ct = [r for r in rec if r[0] == 'C.transform']
@@ -524,5 +525,6 @@ def run(ctx):
     ctx.explanation = ('C12: the isotropic closed forms are evaluated in three (m,n,ξ) frames and differentiated by the CAS (strain = sym grad u, Hooke, div σ = 0, 1/r, Burgers jump, K tensor, '
                        'θ branch table); the Stroh sums are evaluated with generic symbolic eigen-data (strain = sym grad u, stress = C:grad u, K, η, N blocks, A/L split, k, guarded storage); orientation '
                        'handling is evaluated with recording stubs (same rotation for b and C, four input routes, sibling transform, m/n validation, relative round-off); the solver dispatch is evaluated '
-                       'with a raising model of the anisotropic solver. Not decided: accuracy of the numerical eigen-solution, positive-definiteness, the isotropic limit.')
-    ctx.run_rules([isotropic, stroh, frame, dispatch])
+                       'with a raising model of the anisotropic solver; the plane-normal construction used by the Miller route is decided as in C16. Not decided: accuracy of the numerical eigen-solution, positive-definiteness, the isotropic limit.')
+    from .c16 import plane_normal     # the Miller route (ξ_uvw, slip_hkl) gets its n axis from miller.plane_crystal_to_cartesian
+    ctx.run_rules([isotropic, stroh, frame, dispatch, plane_normal])
